@@ -67,6 +67,10 @@ theorem oneshot_broken_pipe_partial (pager : Bool) (writes pos : Nat) (h : pos <
       revert hp hq
       decide
 
+-- (hypothesis satisfiable; the concrete value is not fixed here because it is the one the fix changes:
+--  `⟨1, false⟩` on the tree as pinned, `⟨0, true⟩` once `main` maps BrokenPipe to 0)
+example : effectiveFault ⟨.oneshot, false, 12, some ⟨3, .brokenPipe⟩⟩ = some ⟨3, .brokenPipe⟩ := by decide
+
 /-- Any other write error: message, `error_exit_code` (2). -/
 theorem other_error_reported (m : Mode) (hm : m = .stdin ∨ ∃ k st n, m = .sub k true st n)
     (pager : Bool) (writes pos : Nat) (h : pos < writes) :
@@ -74,6 +78,8 @@ theorem other_error_reported (m : Mode) (hm : m = .stdin ∨ ∃ k st n, m = .su
   rcases hm with rfl | ⟨k, st, n, rfl⟩
   · simp [runResult, shapeOk_true, body, effectiveFault, h, onError_stdin_other]
   · simp [runResult, shapeOk_true, body, effectiveFault, h, onError_sub_other]
+
+example : runResult ⟨.sub .rg true (some 0) 0, true, 20, some ⟨19, .other⟩⟩ = some ⟨2, false⟩ := by decide
 
 /-! ### Exit status -/
 
@@ -164,6 +170,9 @@ theorem subcommand_early_returns (k : SubKind) (st : Option Int) (n : Nat) (page
     · simp [run, shapeOk_true, body, effectiveFault, h, onError_sub_bp]
   · intro pos h
     simp [runResult, shapeOk_true, body, effectiveFault, h, onError_sub_other]
+
+example : runResult ⟨.sub .git false none 0, true, 5, none⟩ = some ⟨2, false⟩ ∧
+    runResult ⟨.sub .diff true none 0, false, 5, none⟩ = some ⟨2, false⟩ := by decide
 
 /-! ### Pager selection -/
 
